@@ -59,7 +59,7 @@ fn good_children(t: &mut Tape, spec: &SpecTable, chain: &[u64], n: usize) -> Vec
     v
 }
 
-fn gen_failing(t: &mut Tape, spec: &SpecTable, open: &[u64]) -> Option<(WOp, &'static str)> {
+pub fn gen_failing(t: &mut Tape, spec: &SpecTable, open: &[u64]) -> Option<(WOp, &'static str)> {
     match t.below(7) {
         0 => bad_child(t, spec, open).map(|f| (WOp::Write(f, WOpt::Default), "tag_not_allowed_here")),
         1 => {
@@ -171,7 +171,14 @@ fn stage(i: &Input, c: &mut Case) -> Result<(), String> {
     c.sample_with(|| format!("spec {} | V = {} | insertions {:?}", spec_brief(d.spec.table()), render_ops(&v), ins.iter().map(|x| format!("@{} {} [{}]", x.at, x.op.short(), x.kind)).collect::<Vec<_>>()));
 
     with_spec!(d.spec, T => {
-        let reference = write_ops::<T>(&v).map_err(|(k, e)| format!("the valid sequence V itself failed at call #{}: {:?}\n  V: {}", k, e, render_ops(&v)))?;
+        // reference run: V alone, remembering what the destination held after every call
+        let mut wref = Wr::<T>::new(RecDest::new());
+        let mut ref_len: Vec<usize> = Vec::with_capacity(v.len());
+        for (k, op) in v.iter().enumerate() {
+            wref.apply(op).map_err(|e| format!("the valid sequence V itself failed at call #{}: {:?}\n  V: {}", k, e, render_ops(&v)))?;
+            ref_len.push(wref.dest().len());
+        }
+        let reference = wref.finish().map_err(|e| format!("the valid sequence V itself failed at flush: {:?}\n  V: {}", e, render_ops(&v)))?;
         let mut w = Wr::<T>::new(RecDest::new());
         let mut hist: Vec<String> = Vec::new();
         let mut next_ins = 0;
@@ -207,6 +214,10 @@ fn stage(i: &Input, c: &mut Case) -> Result<(), String> {
             }
             if !reference.starts_with(w.dest()) {
                 return Err(format!("after call #{} {} the destination is no longer a prefix of the output of V{}\n  destination: {}\n  W(V):        {}", k, v[k].short(), ctx(&hist), hex(&w.dest()[..w.dest().len().min(300)]), hex(&reference[..reference.len().min(300)])));
+            }
+            // "all later calls behave accordingly": the same bytes have been handed over as in the run without the rejected calls
+            if w.dest().len() != ref_len[k] {
+                return Err(format!("after call #{} {} the destination holds {} bytes, but {} in the run without the rejected call(s): later calls do not behave as if the rejected call had never been made{}", k, v[k].short(), w.dest().len(), ref_len[k], ctx(&hist)));
             }
         }
         let got = w.finish().map_err(|e| format!("flush() fails after rejected calls: {:?}{}", e, ctx(&hist)))?;
